@@ -385,6 +385,11 @@ STR_PIECES = ["a", "B", "7", " ", "_", "-", "\\\\", '\\"', '""', "\\n", "\\t", "
 
 
 def _string(rng, n):
+    if n <= 32 and rng.random() < 0.25:
+        # exactly as long as the array allows
+        k = rng.choice([0, 1, 2])
+        body = "\u00e4" * min(k, n // 2)
+        return '"' + body + "x" * (n - 2 * min(k, n // 2)) + '"'
     out, size = [], 0
     for _ in range(rng.randint(0, 6)):
         p = rng.choice(STR_PIECES)
